@@ -7,7 +7,7 @@ dependencies pointed at the worktree) under /tmp/seedrun, so /repo and /verif/ev
 touched; the sandbox is removed at the end. usage: run_seeded_all.py [--keep] [id-prefix ...]"""
 import json, os, subprocess, sys, time, shutil
 ROOT = "/verif"
-W = "/tmp/seedrun"
+W = os.environ.get("SEEDRUN_DIR", "/tmp/seedrun")
 
 def sh(cmd, **kw):
     return subprocess.run(cmd, shell=True, capture_output=True, text=True, **kw)
@@ -47,7 +47,7 @@ def main():
     ids = sorted(d for d in os.listdir(f"{ROOT}/seeded") if os.path.isfile(f"{ROOT}/seeded/{d}/patch.diff"))
     if sel:
         ids = [i for i in ids if any(i.startswith(s) for s in sel)]
-    res_path = f"{ROOT}/seeded/RESULTS.json"
+    res_path = os.environ.get("SEEDRUN_RESULTS", f"{ROOT}/seeded/RESULTS.json")
     results = json.load(open(res_path)) if os.path.exists(res_path) else {}
     head = sh("git -C /repo rev-parse --short HEAD").stdout.strip()
     vhead = sh(f"git -C {ROOT} rev-parse --short HEAD").stdout.strip()
